@@ -119,6 +119,19 @@ def run_case(case):
                     add("value", f"MaximumLikelihoodLoss on {case['model']} (batch {B_}) = {float(got)!r}, -mean(log_prob) = {want!r}")
                 if sample is None:
                     sample = {"loss": "ML", "model": case["model"], "batch": B_, "value": float(got), "reference": float(want)}
+        # a batch containing a row outside the support: minus the mean log-probability is +inf, not a mean over the rest
+        if case["model"] in ("Normal", "wrapped"):
+            import flowjax.distributions as D_
+
+            dd = D_.Uniform(jnp.asarray([0.0, -1.0]), jnp.asarray([1.0, 2.0])) if case["model"] == "Normal" else d
+            for B_ in (2, 5):
+                x = jnp.full((B_, 2), 0.4).at[B_ // 2, 0].set(7.0)
+                p, s = part(dd)
+                got = MaximumLikelihoodLoss()(p, s, x)
+                tr += 1
+                nt += 1
+                if not (np.isinf(float(got)) and float(got) > 0):
+                    add("value-out-of-support", f"MaximumLikelihoodLoss with one out-of-support row (batch {B_}) = {float(got)!r}; minus the mean log-probability of that batch is +inf")
     elif case["leg"] == "elbo":
         d = build(case["model"], seed)
         target_d = D.Normal(jnp.asarray([0.5, -0.2]), jnp.asarray([1.3, 0.9]))
@@ -226,6 +239,19 @@ def run_case(case):
                 tr += 1
                 if not close(val, want) or val < -1e-12:
                     add("contrastive-value", f"ContrastiveLoss(batch {Bsz}, n {n}) = {val!r}, softmax cross-entropy over the rows it used = {want!r}")
+                # sharp, mis-located conditional density: logit gaps of hundreds of nats (the defining cross-entropy is finite)
+                theta_big = theta * 450.0
+                p3, s3 = part(Table(theta_big))
+                val3 = float(ContrastiveLoss(Prior(pw), n)(p3, s3, x, c, key))
+                L3 = np.asarray(theta_big) - np.asarray(pw)[None, :]
+                want3 = 0.0
+                for i in range(Bsz):
+                    logits = np.asarray([L3[i, j] for j in used[i]] + [L3[i, i]])
+                    want3 += -(L3[i, i] - (np.log(np.exp(logits - logits.max()).sum()) + logits.max()))
+                want3 /= Bsz
+                tr += 1
+                if not (np.isfinite(val3) and close(val3, want3)):
+                    add("contrastive-value-large-logits", f"ContrastiveLoss(batch {Bsz}, n {n}) with logits of magnitude ~900 = {val3!r}, defining cross-entropy = {want3!r}")
                 if sample is None:
                     sample = {"loss": "Contrastive", "batch": Bsz, "n_contrastive": n, "rows_used": used, "value": val}
     return {"transitions": tr, "traces": tr, "states": tr, "nontrivial": nt, "violations": viols,
